@@ -587,7 +587,7 @@ def c_driver(f: CFile) -> Tuple[str, Dict[int, Optional[CDef]]]:
 
 def define_spans(header: str, consts: List[CDef]) -> Dict[str, Tuple[int, int]]:
     """name -> (first, last) 1-based line of its #define in the header text."""
-    hl = header.split("\n")
+    hl = re.split(r"\r\n|\r|\n", header)  # physical lines as gcc counts them (LF, CR LF and a lone CR end a line)
     out: Dict[str, Tuple[int, int]] = {}
     for d in consts:
         for k, l in enumerate(hl):
